@@ -399,7 +399,9 @@ Definition de_message (max_table : N) (Ee : env) (lc : N -> option N) (tes : lis
   dom _ <- add_cost false (sat (consumed bs body * 4));
   (* the expected environment is merged into the table by the first get_value_with_type call *)
   let E := match tes with [] => Ew | _ => Ew ++ Ee end in
-  let f := de_fuel E bs in
+  (* twice the fuel of the specification's coercion: an expected opt around a non-opt wire value costs the decoder a level
+     of nesting that the value does not have *)
+  let f := (2 * de_fuel E bs + 2)%nat in
   dom r <- de_args_loop f E lc tes tws body;
   let '(vs, tws', rest) := r in
   dom _ <- de_done f E tws' rest;
